@@ -24,6 +24,7 @@ var knownRepros = []struct{ key, src string }{
 	{"not-idempotent:empty-statement", "syntax = \"proto3\";\nmessage M {\n  ;\n}\n"},
 	{"not-idempotent:whitespace:leading-blank-line", "\n\nsyntax = \"proto3\";\n"},
 	{"not-idempotent:whitespace:at-comment", "syntax = \"proto3\";\nmessage M//c\n{\n}\n"},
+	{"not-idempotent:whitespace:crlf-block-comment", "syntax = \"proto3\";\r\n\r\nmessage M {\r\n  /*\r\n     free text\r\n\r\n     after blank\r\n  */\r\n  int32 x = 1;\r\n}\r\n"},
 	{"not-idempotent:comment-restyled", "syntax = \"proto3\";\noption (b) = {\n  a: [\n    {name: \"x\"}\n    // c8\n  ]\n};\n"},
 }
 
